@@ -1,7 +1,7 @@
 /-! Model of what the generated fast `Motor.program` (ebpfcat/devices.py) computes for
 the bundled EL7041 layout (velocity `h`, stepcounter `i`, switch bits; DeviceVars `I`),
-transcribed from the emitted code's widths: 64-bit temporary, 16-bit store, 32-bit
-signed comparisons of the stored velocity against the velocity limit.  `spec` is the
+transcribed from the emitted code's widths: all limiting in the 64-bit temporary, then the
+16-bit store, then the switch tests on the stored velocity.  `spec` is the
 control law the property states. -/
 namespace Ebv.Motor
 
@@ -25,10 +25,10 @@ def program (i : Inputs) : Int :=
   let d := wrapS 64 ((i.gain : Int) * ((i.target : Int) - i.position))
   let r := if d > i.vprev + i.acc then i.vprev + i.acc else d
   let r2 := if wrapS 64 (r + i.acc) < i.vprev then i.vprev - i.acc else r
-  let v1 := wrapS 16 r2                                   -- 16-bit store, read back sign-extended
-  let v2 := if v1 > wrapS 32 i.vmax then wrapS 16 i.vmax else v1                  -- 32-bit signed compare
-  let v3 := if v2 < wrapS 32 (-(i.vmax : Int)) then wrapS 16 (-(i.vmax : Int)) else v2
-  let v4 := if i.low && decide (v3 < 0) then 0 else v3
+  let r3 := if r2 > (i.vmax : Int) then (i.vmax : Int) else r2                       -- 64-bit compares in the temporary
+  let r4 := if wrapS 64 (r3 + i.vmax) < 0 then wrapS 64 (0 - (i.vmax : Int)) else r3
+  let v1 := wrapS 16 r4                                   -- 16-bit store, read back sign-extended
+  let v4 := if i.low && decide (v1 < 0) then 0 else v1
   if i.high && decide (v4 > 0) then 0 else v4
 
 /-- the accelerated-limited value before the 16-bit store -/
@@ -48,7 +48,8 @@ def Hyp (i : Inputs) : Prop :=
   -(2 ^ 63 : Int) ≤ (i.gain : Int) * ((i.target : Int) - i.position) ∧
   (i.gain : Int) * ((i.target : Int) - i.position) < 2 ^ 63 ∧ i.acc < 2 ^ 32
 
-/-- known-finding class: the acceleration-limited value does not fit the 16-bit output -/
+/-- (historical) the class in which the code before the `fix:` commit failed: the acceleration-limited value does
+not fit the 16-bit output -/
 def AccelWrap (i : Inputs) : Prop := limited i < -32768 ∨ 32767 < limited i
 
 instance (i : Inputs) : Decidable (AccelWrap i) := by unfold AccelWrap; infer_instance
